@@ -595,8 +595,8 @@ theorem cnv_prepare_copy_res_size_counterexample :
 
 /-- **`convolution_apply_dft`** (and the `col_i = col_j` path of `convolution_pairwise_apply_dft`).  Contract: `4 ∣ m`;
 `a_size, b_size ≥ 1` (asserted by `reim4_convolution`); `res_col < res.cols()` (asserted by `at_mut`);
-`tmp.len() ≥ 8·min_size` (`convolution_apply_dft_tmp_bytes`); **and `a_col < a.cols()`, `b_col < b.cols()`, which the
-code does not check** (`&a_raw[a_col·n·a_size..]` only panics for `a_col > a.cols()`). -/
+`tmp.len() ≥ 8·min_size` (`convolution_apply_dft_tmp_bytes`); and `a_col < a.cols()`, `b_col < b.cols()` — asserted at entry since repair docs/fixes/24 (`cnvApplyChecked`;
+before it `&a_raw[a_col·n·a_size..]` only panicked for `a_col > a.cols()`). -/
 theorem cnv_apply_in_bounds (m resSize resCols resCol aSize aCols aCol bSize bCols bCol cnvOffset tmpLen : Nat) (hm : m % 4 = 0)
     (ha1 : 1 ≤ aSize) (hb1 : 1 ≤ bSize) (hrc : resCol < resCols) (hac : aCol < aCols) (hbc : bCol < bCols)
     (htmp : 8 * min resSize (aSize + bSize - 1) ≤ tmpLen) :
@@ -625,15 +625,14 @@ theorem cnv_apply_in_bounds (m resSize resCols resCol aSize aCols aCol bSize bCo
     exact at_fit (by omega) hrc
 example : InBounds (lens4 (16 * 2 * 3) (16 * 2 * 2) (16 * 1 * 3) (8 * 3)) (cnvApply 8 3 2 1 2 1 3 0 1) := by decide
 
-/-- the missing precondition is necessary: `a_col = a.cols()` (one past the last column) passes every check of the
+/-- what repair docs/fixes/24 bought (`cnvApply` = the entry point without its new column assertions): `a_col = a.cols()` (one past the last column) passes every check of the
 reference wrapper (`&a_raw[len..]` is an empty slice) and the AVX kernel then loads `8·a_size` doubles past the operand -/
-theorem cnv_apply_a_col_counterexample :
+theorem cnvApplyOld_a_col_out_of_bounds :
     ¬ InBounds (lens4 (16 * 1 * 1) (16 * 1 * 1) (16 * 1 * 1) 8) (cnvApply 8 1 1 0 1 1 1 0 0) := by decide
 
 /-- **`convolution_by_const_apply`** with the AVX `i64_extract_1blk_contiguous_avx`, `i64_convolution_by_const_{1,2}coeff_avx`,
 `i64_save_1blk_contiguous_avx`.  Contract: `8 ∣ n`, `a_size ≥ 1` (asserted), `tmp.len() ≥ 8·(min_size + a_size)`
-(`convolution_by_const_apply_tmp_bytes`); **and `a_col < a.cols()`, `res_col < res.cols()`, unchecked when
-`min_size = res_size`**. -/
+(`convolution_by_const_apply_tmp_bytes`); and `a_col < a.cols()`, `res_col < res.cols()` — asserted at entry since repair docs/fixes/24 (`cnvByConstChecked`). -/
 theorem cnv_by_const_in_bounds (n resSize resCols resCol aSize aCols aCol bSize cnvOffset tmpLen : Nat) (hn : n % 8 = 0)
     (ha1 : 1 ≤ aSize) (hrc : resCol < resCols) (hac : aCol < aCols)
     (htmp : 8 * (min resSize (aSize + bSize - 1) + aSize) ≤ tmpLen) :
@@ -670,12 +669,12 @@ theorem cnv_by_const_in_bounds (n resSize resCols resCol aSize aCols aCol bSize 
     exact at_fit (by omega) hrc
 example : InBounds (lens4 (8 * 2 * 2) (8 * 2 * 2) 3 (8 * (2 + 2))) (cnvByConst 8 2 2 1 2 2 0 3 1) := by decide
 
-/-- `res_col = res.cols()` with `min_size = res_size` (no `zero_at` assertion is reached): the AVX save stores 8 `i64`
+/-- before repair docs/fixes/24 (`cnvByConst` = the entry point without its new column assertions): `res_col = res.cols()` with `min_size = res_size` (no `zero_at` assertion is reached): the AVX save stores 8 `i64`
 past the end of `res` — an out-of-bounds **write** -/
-theorem cnv_by_const_res_col_counterexample :
+theorem cnvByConstOld_res_col_out_of_bounds :
     ¬ InBounds (lens4 (8 * 1 * 1) (8 * 1 * 1) 1 (8 * (1 + 1))) (cnvByConst 8 1 1 1 1 1 0 1 0) := by decide
 
-/-- with the entry assertions of the proposed repair (docs/fixes/01) the column hypotheses disappear: whenever the
+/-- the shipped entry points (with the column assertions of repair docs/fixes/24): no column hypothesis is needed: whenever the
 checked operations return a footprint, it is in bounds -/
 theorem cnv_checked_in_bounds (m n resSize resCols resCol aSize aCols aCol bSize bCols bCol cnvOffset tmpLen tmpLen2 : Nat)
     (hm : m % 4 = 0) (hn : n % 8 = 0)
